@@ -6,13 +6,16 @@
   fit and `delete_range` are executable models (PM/Fitter.lean, PM/RangeOps.lean) tied exactly to the
   real code; the later theorems prove the monitor's conjuncts about what the *model* emits
   (`fit_range`, the text invariant, `fitter_respects`, the `delete_range` theorems).
-  (3) Totality of the *model*, last section: the loop of `fit` terminates — the fuel `replaceStep`
+  (3) Totality of the *model*, last sections: the loop of `fit` terminates — the fuel `replaceStep`
   passes is enough, and `outOfFuel` is answered exactly when the loop reaches the one state it maps
   to itself (`fitLoop_outOfFuel_exact`, `fitLoop_terminates`, `replaceStep_not_outOfFuel`); the
-  failure classes of `replaceStep` (`replaceStep_failures`).  That the run does not *raise* is proved
-  only in part (see that section); every other Fitter theorem assumes the run ends in `.ok`.
+  failure classes of `replaceStep` (`replaceStep_failures`); `replaceStep` *returns* for every
+  deletion (`delete_total`, `deleteRange_total`) and for every closed slice of leaf / text nodes
+  (`insertInline_total`) on a valid document.  For other slices that the run does not raise is not
+  proved (`fit_no_internal_partial` says what is); every other Fitter theorem assumes `.ok`.
   Helpers: Proofs/Respects.lean, RangeOps.lean, Fitter.lean, FitterText.lean, FitRaises.lean,
-  FitMeasure.lean, FitScan.lean, FitTerm.lean, FitLoop.lean, FitTotal.lean, FillOrder.lean.
+  FitMeasure.lean, FitScan.lean, FitTerm.lean, FitLoop.lean, FitTotal.lean, FitDelete.lean, FitInline.lean,
+  FillOrder.lean.
 -/
 import PM.Monitor
 import Proofs.StepToks
